@@ -225,7 +225,7 @@ def case_to_coq(c):
         coq_list([rspan(r) for r in (c["read"] or [])]))
 
 
-HEADER = ("From Coq Require Import List ZArith NArith Bool String Ascii Uint63.\nFrom Qryn Require Import model.Spans model.SpansChunk model.SpansWire model.SpansStore model.SpansJson model.SpansWireX model.SpansWireY.\n"
+HEADER = ("From Coq Require Import List ZArith NArith Bool String Ascii Uint63.\nFrom Qryn Require Import model.Spans model.SpansChunk model.SpansWire model.SpansStore model.SpansJson model.SpansWireX model.SpansWireY model.SpansZone.\n"
           "Import ListNotations.\nOpen Scope string_scope.\nOpen Scope Z_scope.\n")
 
 
@@ -264,7 +264,9 @@ def cases_file(cases):
         ["(Build_qcase c%d %d%%nat %s %s)" % (c["id"], c["query_k"], coq_list([HX(x) for x in c.get("query_bad") or []]),
                                              coq_list([HX(x) for x in c.get("query_type3") or []]))
          for c in cases if c.get("query_k", -1) >= 0 and not flushed_error(c)])
-    return HEADER + "\n".join(IN.defs) + "\n" + "\n".join(one) + "\n" + lst + cc + wc + tc + qc
+    # every request with the zone of the writer process it was parsed and stored under (seconds east of UTC)
+    zc = "Definition zncases : list zncase := %s.\n" % coq_list(["(Build_zncase c%d %s)" % (c["id"], Z(c.get("tz", 0))) for c in cases])
+    return HEADER + "\n".join(IN.defs) + "\n" + "\n".join(one) + "\n" + lst + cc + wc + tc + qc + zc
 
 
 def ids(s):
@@ -285,13 +287,16 @@ def eval_text(ck, name, cases_txt):
            "Definition TM := Eval vm_compute in tok_mismatches tcases.\nPrint TM.\n"
            "Definition TI := Eval vm_compute in tok_illformed tcases.\nPrint TI.\n"
            "Definition TV := Eval vm_compute in tok_spec_violations tcases.\nPrint TV.\n"
-           "Definition XV := Eval vm_compute in xread_violations xcases.\nPrint XV.\n")
+           "Definition XV := Eval vm_compute in xread_violations xcases.\nPrint XV.\n"
+           "Definition ZM := Eval vm_compute in zone_mismatches zncases.\nPrint ZM.\n"
+           "Definition ZD := Eval vm_compute in zone_local_explains zncases.\nPrint ZD.\n"
+           "Definition ZV := Eval vm_compute in zone_spec_violations zncases.\nPrint ZV.\n")
     rc, out = ck.coq_eval(name, txt)
     if rc != 0:
         return None, out
     flat = " ".join(out.split())
     res = {}
-    for nm in ("M", "V", "CM", "CV", "WM", "WR", "TM", "TI", "TV", "XV", "YV", "QM"):
+    for nm in ("M", "V", "CM", "CV", "WM", "WR", "TM", "TI", "TV", "XV", "YV", "QM", "ZM", "ZD", "ZV"):
         m = re.search(r"(?<![A-Z])" + nm + r" = \[(.*?)\]\s*: list Z", flat)
         if not m:
             return None, out
@@ -325,7 +330,7 @@ def delivery_of(ck, c):
     try:
         inp = os.path.join(ck.work, "body_in.jsonl")
         outp = os.path.join(ck.work, "body_out.jsonl")
-        open(inp, "w").write(json.dumps({k: c.get(k) for k in ("id", "class", "fmt", "otlp", "zip", "sep", "trail_nl", "esc", "tails", "seg_mode", "seg_seed", "retry")}) + "\n")
+        open(inp, "w").write(json.dumps({k: c.get(k) for k in ("id", "class", "fmt", "otlp", "zip", "sep", "trail_nl", "esc", "tails", "seg_mode", "seg_seed", "retry", "tz")}) + "\n")
         rc, _ = ck.go_run("spans", ["--cases", inp, "--out", outp], env_extra={"SPANS_DUMP_BODY": "1"})
         if rc == 0:
             o = json.loads(open(outp).readline())
@@ -345,7 +350,7 @@ def slim(c):
     """a case without its bulky observations (a replay needs the input only)"""
     if size_of(c) < 200000:
         return c
-    return {k: c.get(k) for k in ("id", "class", "fmt", "otlp", "zip", "sep", "trail_nl", "esc", "tails", "seg_mode", "seg_seed", "retry", "err", "errmsg", "resp")}
+    return {k: c.get(k) for k in ("id", "class", "fmt", "otlp", "zip", "sep", "trail_nl", "esc", "tails", "seg_mode", "seg_seed", "retry", "tz", "err", "errmsg", "resp")}
 
 
 def nontrivial(c):
@@ -400,7 +405,7 @@ def run_spans(ck):
                   "case ids: %s; %s" % ([c["id"] for c in changed[:10]], changed[0]["retry_diff"][:300] if changed else ""))
     cases = [c for c in cases if not c.get("panic")]
     byid = {c["id"]: c for c in cases}
-    tot = {"M": [], "V": [], "R": [], "CM": [], "CV": [], "WM": [], "WR": [], "TM": [], "TI": [], "TV": [], "XV": [], "YV": [], "QM": []}
+    tot = {"M": [], "V": [], "R": [], "CM": [], "CV": [], "WM": [], "WR": [], "TM": [], "TI": [], "TV": [], "XV": [], "YV": [], "QM": [], "ZM": [], "ZD": [], "ZV": []}
     # Coq spends ~0.1 s per request elaborating the literal: shards are evaluated by parallel coqc processes
     shard = 100
     heavy = [c for c in cases if size_of(c) > 40000]           # the > 64 KiB / > 1 MiB requests: a shard each
@@ -431,6 +436,40 @@ def run_spans(ck):
                   not mism, "mismatching case ids: %s; legacy-defect diagnosis (case, defect): %s" % (mism[:10], tot["R"][:10]))
     ck.obligation("spec oracle spec_ok accepts every observed request (one row per span, tag rows of span, read back)",
                   not viol, "violating case ids: %s" % viol[:10])
+    # ---- the zone of the writer process (model/SpansZone.v): every request was parsed and its blocks built with time.Local = FixedZone(tz)
+    zm, zd, zv = tot["ZM"], set(tot["ZD"]), tot["ZV"]
+    zones = {}
+    for c in cases:
+        zones[c.get("tz", 0)] = zones.get(c.get("tz", 0), 0) + 1
+
+    def other_local_day(c):
+        """tag rows of this case whose span starts on another calendar day in the writer's zone than in UTC"""
+        return sum(1 for a in (c["tags"] or []) if a["ts"] >= 0 and (a["ts"] // 10**9) // 86400 != (a["ts"] // 10**9 + c.get("tz", 0)) // 86400)
+    nlocal = sum(other_local_day(c) for c in cases)
+    ck.obligation("correspondence: model SpansZone.span_date (onSpan's time.Unix(ts/1e9, 0).UTC() through ch-go's ToDate, in the zone of the writer process) = the date "
+                  "cell of every tag row, %d requests parsed and stored under %d process zones (%d under a zone other than UTC; %d tag rows of spans whose LOCAL "
+                  "calendar day differs from the UTC day)" % (len(cases), len(zones), sum(n for z, n in zones.items() if z), nlocal), not zm,
+                  "mismatching case ids: %s; of these the observed days are the writer's LOCAL calendar days (MDate built without .UTC()): %s"
+                  % (zm[:10], [i for i in zm if i in zd][:10]))
+    ck.obligation("spec oracle on the day: every tag row of a span that starts at or after 1970 bears the UTC day of its timestamp_ns, whatever the zone of the "
+                  "writer process (tag_date_is_utc_day; the day every reader planner restricts date to)", not zv, "violating case ids: %s" % zv[:10])
+    if zv:
+        w = min((byid[i] for i in zv), key=lambda c: (c["id"] not in zd, size_of(c)))
+        bad = [a for a in w["tags"] if a["ts"] >= 0 and a["date"] != ((a["ts"] // 10**9) // 86400) % 65536]
+        a = bad[0]
+        ck.violation({"property": PID, "kind": "the tag-index rows of a stored span do not bear the day of the span: date cell %d, but timestamp_ns %d is on UTC day %d "
+                                               "(writer process zone: %+d s east of UTC%s); a search around the span restricts date to the UTC days of its window and "
+                                               "never finds these rows" % (a["date"], a["ts"], (a["ts"] // 10**9) // 86400, w.get("tz", 0),
+                                                                           "; the stored day is the writer's LOCAL calendar day" if w["id"] in zd else ""),
+                      "case": slim(w), "writer_zone_seconds_east_of_utc": w.get("tz", 0), "tag_rows_with_wrong_day": bad[:6], "delivery": delivery_of(ck, w),
+                      "replay": "harness spans --cases <file holding the 'case' object on one line> --out /dev/stdout"})
+    elif zm and not viol and not mism:
+        w = min((byid[i] for i in zm), key=size_of)
+        ck.violation({"property": PID, "kind": "model/implementation disagree on the date cell of the tag rows", "case": slim(w),
+                      "broken": "correspondence SpansZone.span_date vs builder.go onSpan / ch-go ToDate"}, no_input=True)
+    ck.extra["writer_process_zones"] = {("%+d" % z): n for z, n in sorted(zones.items())}
+    ck.extra["tag_rows_of_spans_on_another_local_day"] = nlocal
+    ck.extra["requests_with_such_rows"] = sum(1 for c in cases if other_local_day(c))
     # ---- the Zipkin payload as a token stream (model/SpansJson.v): the tokenizers are the oracle, everything above them is model
     zcases = [c for c in cases if c["fmt"] != "otlp"]
     tm = tot["TM"]
@@ -682,7 +721,7 @@ def run_replay(ck):
         return
     inp = os.path.join(ck.work, "replay_in.jsonl")
     outp = os.path.join(ck.work, "replay_out.jsonl")
-    open(inp, "w").write(json.dumps({k: c.get(k) for k in ("id", "class", "fmt", "otlp", "zip", "sep", "trail_nl", "esc", "tails", "seg_mode", "seg_seed", "retry")}) + "\n")
+    open(inp, "w").write(json.dumps({k: c.get(k) for k in ("id", "class", "fmt", "otlp", "zip", "sep", "trail_nl", "esc", "tails", "seg_mode", "seg_seed", "retry", "tz")}) + "\n")
     rc, out = ck.go_run("spans", ["--cases", inp, "--out", outp])
     if rc != 0:
         ck.obligation("harness spans ran the replay", False, out[-1500:])
